@@ -145,14 +145,7 @@ def correspondence(ctx):
     for k, (label, sname, ops, fl) in enumerate(cases):
         dist['flushes'] += 1
         if not usable(fl): dist['skipped_unmapped_rows'] += 1; continue
-        if fl['pending'].get('requeued'):
-            # the object is deleted at its first (earlier) slot, before the statements of its cascaded dependents: accepted by the database
-            # only through the ON DELETE clauses, which the model deliberately ignores -> the model is not consulted, the flush must succeed
-            dist['requeued_object_in_objects_to_save'] += 1
-            if fl['outcome'] != 0:
-                disagreements.append({'what': 'flush failed (%s) with an object queued twice in objects_to_save [%s]' % (fl['error'], label),
-                                      'input': {'schema': sname, 'ops': ops, 'pending': fl['pending']}})
-            continue
+        if fl['pending'].get('requeued'): dist['queues_with_a_repeated_object'] += 1
         chunks.append(flush_coq('c%d' % k, fl)); used.append((label, sname, ops, fl))
     per = max(20, min(120, (len(chunks) + 7) // 8))
     outs = vlib.coq_eval_many(ctx, HEADER, [''.join(chunks[i:i + per]) for i in range(0, len(chunks), per)], name='f')
@@ -175,10 +168,10 @@ def correspondence(ctx):
         if not wf and fl['outcome'] == 0:
             deleted = set(h for h, st, cols in fl['pending']['queue'] if st == 'Deleted')
             if any(t in deleted and h != t for h, t in fl.get('on_delete_refs', [])):
-                # a row that references a row being deleted is neither deleted nor updated earlier in the queue (its reference-clearing UPDATE
-                # was dropped when the holder itself was deleted later in the session): the DELETE is acceptable to the database only through
-                # the schema's ON DELETE SET NULL / CASCADE, which the model deliberately ignores -> outside wf_pending, real flush succeeded
-                dist['relies_on_on_delete_clause'] += 1
+                # a row that references a row being deleted through an ON DELETE CASCADE column is neither deleted nor updated earlier in the
+                # queue (an object queued twice is deleted at its first slot, before its cascaded dependents): acceptable to the database only
+                # through the CASCADE action, which the model treats as NO ACTION -> outside wf_pending; the real flush succeeded
+                dist['relies_on_on_delete_cascade'] += 1
                 continue
         if not wf:
             disagreements.append({'what': 'the pending set of a real session is outside wf_pending (hypothesis of C16_order) [%s]' % label, 'input': inp})
